@@ -31,7 +31,7 @@ class Norm(object):
         self.ret, self.t = U.split_result(ctx, self.rets, "normalize_url")
         self.scheme, self.netloc, self.path, self.query, self.fragment = self.t[2]
         (self.user, self.password, self.host, self.port), self.netloc_methods = U.netloc_args(ctx, self.netloc, "normalize_url")
-        self.parse_nodes = [x for x in P.subterms(self.t) if U.is_parse(x)]
+        self.parse_nodes = [x for x in P.subterms(self.t) if x[0] == "call" and U.is_parse(x)]
         if not self.parse_nodes:
             raise AnalysisError("normalize_url: no call to the standard parser found")
         self.parse_arg = self.parse_nodes[0][2][0]
